@@ -58,7 +58,8 @@ def out_args(outdir):
 def diff_outputs(a, b, only=None):
     keys = set(a) | set(b)
     if only is not None:
-        keys = set(k for k in keys if k.split('.')[0] in only)
+        exts = ('.py', '.pp.hpp', '.pp.cpp', '.ppf.hpp', '.ppf.cpp', '.prophy')
+        keys = set(k for k in keys if any(k == st_ + x for st_ in only for x in exts))
     for k in sorted(keys):
         if a.get(k) != b.get(k):
             return k
@@ -169,6 +170,7 @@ def check_twins(lay_a, lay_b, order, isar=False):
                     f.write(ir.to_isar(lay.schema.decls))
                 continue
             lay.stems = ['types', 'm' + tag]
+            lay.exts = None
             lay.arrangement = 'flat'
             for i in range(lay.nfiles):
                 with open(os.path.join(d, lay.stem(i) + '.prophy'), 'w') as f:
@@ -259,6 +261,9 @@ def cases(draw, opts):
         variation = draw(st.sampled_from(['hashseed', 'cwd', 'second_call', 'after_other']))
     else:
         lay = draw(multifile.layouts(opts, min_files=1, max_files=5))
+        if draw(st.integers(0, 3)) == 0:
+            # file names that are no identifiers (fine for the C++ back-ends; the outputs are compared, not imported)
+            lay.stems = [('my-%s' if i % 2 else 'v1.%s') % lay.stem(i) for i in range(lay.nfiles)]
         variation = draw(st.sampled_from(['hashseed', 'hashseed', 'cwd', 'order', 'alone', 'second_call',
                                           'after_other']))
         if lay.nfiles >= 4 and draw(st.booleans()):
